@@ -598,6 +598,9 @@ type c08Runner struct {
 	envIdx  int
 	cases   []string
 	idx     []string
+	// cells of the second role-certificate endpoint, /v1/refreshRoleRequestingCert (c08_refresh.go)
+	rcases  []string
+	ridx    []string
 	curVar  int
 	dirty   bool
 	chains  map[string][][]*x509.Certificate
@@ -1667,6 +1670,7 @@ func TestVerif_C08(t *testing.T) {
 	keys := verifNewKeys()
 	var cfgCoq, extraCfgCoq, fixtureCoq []string
 	var allCases, allIdx []string
+	var allRCases, allRIdx []string
 	var traceCases, traceIdx []string
 	var maxDur time.Duration
 	for ei, backends := range backendSets {
@@ -1749,6 +1753,14 @@ func TestVerif_C08(t *testing.T) {
 			// a stream of its own: the cells and histories below keep theirs
 			r.identities(mrand.New(mrand.NewSource(verifSeed()*7919+int64(ei)+8)), nRandom)
 		}
+		// the second role-certificate endpoint (renewal by the holder): no random stream is consumed
+		if ei == 0 || (thorough && ei == caseSensitiveEnv) {
+			r.refresh(true)
+		} else if ei == 1 {
+			r.refresh(false)
+		}
+		allRCases = append(allRCases, r.rcases...)
+		allRIdx = append(allRIdx, r.ridx...)
 		if ei == 0 {
 			r.sweeps(rng, thorough)
 			traceCases, traceIdx = r.traces(rng, thorough)
@@ -1776,7 +1788,7 @@ func TestVerif_C08(t *testing.T) {
 	// ---- Coq
 	var sb strings.Builder
 	sb.WriteString(coqCaseHeader)
-	sb.WriteString("From KM Require Import Base.Cases Model.Auth Model.Authz Model.AdminCache Proofs.AuthzObs.\nOpen Scope N_scope.\n")
+	sb.WriteString("From KM Require Import Base.Cases Model.Auth Model.Authz Model.AdminCache Proofs.AuthzObs Proofs.AuthzRefresh.\nOpen Scope N_scope.\n")
 	sb.WriteString(c08UTable())
 	sb.WriteString("Definition T (i : Z) (n : tname) (e : bool) : Z * tok := (i, {| tk_name := n; tk_enabled := e |}).\n")
 	sb.WriteString("Definition P (u w t : tokens) (a b c d e : bool) : profile := {| p_u2f := u; p_wa := w; p_totp := t; p_regchal := a; p_pending_totp := b; p_wa_session := c; p_bootstrap := d; p_registered := e |}.\n")
@@ -1841,6 +1853,27 @@ func TestVerif_C08(t *testing.T) {
 		sb.WriteString("Definition cell_at (i : nat) : option cell := (" + expr + ")%nat.\n")
 	}
 	sb.WriteString("Definition c08_violating := Eval vm_compute in filter (fun i => match cell_at i with Some x => viol_cell x | None => false end) c08_mismatches.\nPrint c08_violating.\n")
+	// ---- the second role-certificate endpoint: (configuration, fixture, credential, POST, the form's identity ([] = absent
+	// or empty), public key well formed, response class, CN of the returned certificate, changed rows); the model is
+	// refresh_step; the directory answer the handler asks for is the one about the certificate's CN
+	sb.WriteString("Definition rcell := (nat * N * cred * bool * name * bool * resp * option name * list (name * option profile))%type.\n")
+	sb.WriteString("Definition rcells : list rcell := [\n " + strings.Join(allRCases, ";\n ") + "].\n")
+	sb.WriteString(`Definition rreq (c : cfg) (cr : cred) (post : bool) (tg : name) (pok : bool) : request :=
+  {| r_cred := cr; r_post := post; r_op := RoleCert; r_target := tg; r_index := None; r_name := 0; r_proof := PWrong;
+     r_adm := adm_of c (cred_user (resolve c cr)); r_dir_target := dir_of (cred_user (resolve c cr)); r_params_ok := pok |}.
+Definition bad_rcell (x : rcell) : bool :=
+  let '(e, v, cr, post, tg, pok, obs_resp, obs_issued, obs_store) := x in
+  let c := cfg_of e in
+  let '(s', x', i') := refresh_step c (fixture v) (rreq c cr post tg pok) in
+  negb (resp_eqb x' obs_resp && oname_eqb i' obs_issued && stores_agree universe s' (apply_delta (fixture v) obs_store)).
+Definition viol_rcell (x : rcell) : bool :=
+  let '(e, v, cr, post, tg, pok, obs_resp, obs_issued, obs_store) := x in
+  let c := cfg_of e in
+  refresh_cell_violating c universe (fixture v) (rreq c cr post tg pok) obs_resp obs_issued (apply_delta (fixture v) obs_store).
+`)
+	sb.WriteString(fmt.Sprintf("Definition c08_refresh_ncases := %d%%N.\nPrint c08_refresh_ncases.\n", len(allRCases)))
+	sb.WriteString("Definition c08_refresh_mismatches := Eval vm_compute in mismatches bad_rcell rcells.\nPrint c08_refresh_mismatches.\n")
+	sb.WriteString("Definition c08_refresh_violating := Eval vm_compute in filter (fun i => match nth_error rcells i with Some x => viol_rcell x | None => false end) c08_refresh_mismatches.\nPrint c08_refresh_violating.\n")
 	// of the cells that passed authentication, how many the model allows / denies (printed for the evidence)
 	traceShards := c08Shards(&sb, "trace_cases", "(bool * list (rkind * Z * Z * name * answer) * list bool)", traceCases, 400)
 	sb.WriteString(fmt.Sprintf("Definition c08_ntraces := %d%%N.\nPrint c08_ntraces.\n", len(traceCases)))
@@ -1851,6 +1884,11 @@ func TestVerif_C08(t *testing.T) {
 	}
 	ioutil.WriteFile(filepath.Join(verifOut(), "CasesC08.idx"), []byte(strings.Join(allIdx, "\n")), 0644)
 	ioutil.WriteFile(filepath.Join(verifOut(), "CasesC08Trace.idx"), []byte(strings.Join(traceIdx, "\n")), 0644)
+	ioutil.WriteFile(filepath.Join(verifOut(), "CasesC08Refresh.idx"), []byte(strings.Join(allRIdx, "\n")), 0644)
+	res.Extra["refresh_cells"] = len(allRCases)
+	if len(allRIdx) > 2 {
+		res.sample(allRIdx[len(allRIdx)/2])
+	}
 	res.Extra["admin_cache_max_duration"] = maxDur.String()
 	res.Extra["cells"] = len(allCases)
 	res.Extra["traces"] = len(traceCases)
